@@ -151,6 +151,7 @@ func runScenario(ops []vOp) (mon []string, final map[string][]int, quirks map[st
 	final = map[string][]int{}
 	var pendingPub chan error
 	blockedSeen := false
+	lateOnce := false
 	say := func(m string) {
 		for _, ss := range subsK {
 			if ss.live && ss.stalled {
@@ -174,14 +175,20 @@ func runScenario(ops []vOp) (mon []string, final map[string][]int, quirks map[st
 		if blockedSeen {
 			return // what a blocked Publish still owes cannot arrive
 		}
-		waitUntil(vDeadline, func() bool {
+		d := vDeadline
+		if lateOnce {
+			d = 100 * time.Millisecond // a delivery was already missed in this scenario (reported at the end): do not wait 5 s again for every op
+		}
+		if !waitUntil(d, func() bool {
 			for _, ss := range subsK {
 				if ss.live && !ss.stalled && ss.stream.count() < len(ss.expect) {
 					return false
 				}
 			}
 			return true
-		})
+		}) {
+			lateOnce = true
+		}
 	}
 	checkSub := func(k int, ss *vSubState, when string) {
 		if ss.wrapped {
